@@ -22,6 +22,14 @@ def run(ctx):
     sm = []
     for c in cases:
         sm += pc.c12_oracle(c)
+    # the model carries the recorded leaks exactly: a residue the model does not predict is a leak outside the
+    # recorded findings -- a concrete failing stream, not just a broken correspondence
+    byi = {c["i"]: c for c in cases}
+    for m in mm:
+        if m.get("differs", "").startswith("final accounting") and m.get("case", {}).get("i") in byi:
+            c = byi[m["case"]["i"]]
+            sm.append(dict(kind="residue-not-predicted", what="after flush + idle the counters are %s, which the recorded leaks do not explain (streams: %s)" % (
+                c["acct"], [cn["mut"] or "grammatical" for cn in c["conns"]]), case=dict(i=c["i"], seed=c.get("seed")), cmdkinds=[], residue={"unexplained": 1}))
     dist = {"quiescent-zero": 0, "residue": 0}
     for c in cases:
         dist["residue" if any(c["acct"]) else "quiescent-zero"] += 1
